@@ -127,7 +127,7 @@ def run_data_case(ctx, fe, verdict, L, t_data, lat):
     if isinstance(e, types.ValidationFailure):
         ctx.event('validation-failure')
         if accept and rel == 'before':
-            ctx.report(f'validation-failure-despite-accept:{fe}', 'ValidationFailure although the validator accepted in time', w)
+            ctx.event('observation:validation-failure-despite-accept')       # C03 demands the Data here; C05 only the "only if" direction
         if rel == 'after':
             ctx.report('v1-validator-unbounded' if fe == 'v1' else 'verdict-after-deadline:v2',
                        f'ValidationFailure delivered at {t} ms, after the {L} ms deadline, instead of a timeout', w)
@@ -146,9 +146,87 @@ def run_data_case(ctx, fe, verdict, L, t_data, lat):
     if isinstance(e, types.InterestTimeout):
         ctx.event('timeout')
         if rel == 'before':
-            ctx.report(f'timeout-although-validated-in-time:{fe}', f'InterestTimeout although the validator finished at {tv} < {L}', w)
+            ctx.event('observation:timeout-although-validated-in-time')      # judged by C03
         return
     ctx.report(f'unexpected-outcome:{fe}:{type(e).__name__}', f'express ended with {e!r}', w)
+
+
+def check_data_multi(ctx, rng):
+    """Several Interests pending on one name (and on a CanBePrefix parent), each with its own validator: one Data must be
+    judged by every caller's own validator."""
+    for fe in ('v2', 'v1'):
+        verdicts = V2_VERDICTS[:5] if fe == 'v2' else V1_VERDICTS
+        for rep in range(ctx.n(40, 1500)):
+            k = rng.randint(2, 4)
+            specs = []
+            for j in range(k):
+                specs.append({'verdict': rng.choice(verdicts), 'lat': rng.choice([0, 0, 5, 20]), 'parent': rng.random() < 0.25})
+            if rep % 4 == 0:
+                specs[0]['verdict'] = verdicts[0]          # an accepting validator first, a refusing one later
+                specs[-1]['verdict'] = verdicts[2]
+            obs = {}
+            vlog = []
+            name = [C(b'm'), C(b'x')]
+            wire = bytes(make_data(name, MetaInfo(), b'payload', DigestSha256Signer()))
+
+            async def main(S):
+                face = RecFace()
+                the_app = appv2.NDNApp(face=face) if fe == 'v2' else appv1.NDNApp(face=face, keychain=KeychainDigest())
+                main_task = asyncio.ensure_future(the_app.main_loop())
+                await asyncio.sleep(0)
+                tasks = []
+                for j, sp in enumerate(specs):
+                    nm = name[:1] if sp['parent'] else name
+                    if fe == 'v2':
+                        async def v(n, sig, c, j=j, sp=sp):
+                            vlog.append(j)
+                            if sp['lat']:
+                                await asyncio.sleep(sp['lat'] / 1000)
+                            return to_v2(sp['verdict'])
+                        coro = the_app.express(nm, v, lifetime=1000, can_be_prefix=sp['parent'], nonce=10 + j)
+                    else:
+                        async def v(n, sig, j=j, sp=sp):
+                            vlog.append(j)
+                            if sp['lat']:
+                                await asyncio.sleep(sp['lat'] / 1000)
+                            return sp['verdict']
+                        coro = the_app.express_interest(nm, validator=v, lifetime=1000, can_be_prefix=sp['parent'], nonce=10 + j)
+
+                    async def waiter(j=j, coro=coro):
+                        try:
+                            await coro
+                            obs[j] = 'data'
+                        except types.ValidationFailure as e:
+                            obs[j] = ('valfail', getattr(e, 'result', None))
+                        except asyncio.CancelledError:
+                            raise
+                        except BaseException as e:   # noqa
+                            obs[j] = type(e).__name__
+                    tasks.append(asyncio.ensure_future(waiter()))
+                await asyncio.sleep(0.01)
+                await face.deliver(wire)
+                await asyncio.sleep(1.5)
+                the_app.shutdown()
+                await asyncio.wait_for(main_task, 5)
+            S = vtime.run(main)
+            w = {'frontend': fe, 'interests': [dict(sp, verdict=repr(sp['verdict'])) for sp in specs], 'observed': {str(k_): str(v_) for k_, v_ in obs.items()},
+                 'validators_called': vlog}
+            ctx.case(('multi', fe, tuple((repr(sp['verdict']), sp['lat'], sp['parent']) for sp in specs)), nontrivial=True)
+            ctx.event('multi-interest-data')
+            if S.result != 'ok':
+                ctx.report(f'multi-scenario-{S.result}:{fe}', f'{S.error!r}', w)
+                continue
+            for j, sp in enumerate(specs):
+                accept = v2_accepts(sp['verdict']) if fe == 'v2' else bool(sp['verdict'])
+                got = obs.get(j)
+                if got == 'data' and not accept:
+                    ctx.report(f'payload-returned-despite-own-validator:{fe}', f'Interest {j} got the payload although its own validator says {sp["verdict"]!r}', w)
+                elif got == 'data' and vlog.count(j) == 0:
+                    ctx.report(f'payload-returned-without-own-validator:{fe}', f'Interest {j} got the payload but its validator was never consulted', w)
+                elif accept and got != 'data':
+                    ctx.event('observation:accepted-data-not-returned')      # the "if" direction is C03's (Data iff it matches in time)
+                elif not accept and (not isinstance(got, tuple)):
+                    ctx.report(f'refused-data-wrong-outcome:{fe}', f'Interest {j}: validator refuses but the outcome is {got!r}', w)
 
 
 # ------------------------------------------------------------------ Interest side
@@ -341,9 +419,10 @@ def run(ctx):
     ctx.rule = RULE
     rng = ctx.rng
     check_data_side(ctx, rng)
+    check_data_multi(ctx, rng)
     if ctx.shard == 0:
         check_interest_side(ctx, rng)
-    need = ['data-before-deadline', 'data-after-deadline', 'data-at-deadline', 'payload-returned', 'validation-failure', 'timeout']
+    need = ['multi-interest-data', 'data-before-deadline', 'data-after-deadline', 'data-at-deadline', 'payload-returned', 'validation-failure', 'timeout']
     if ctx.shard == 0:
         need += ['interest-needs-validation', 'interest-plain', 'validated-then-delivered', 'dropped']
     for k in need:
